@@ -165,6 +165,60 @@ def _window_replay(case):
     return core.result(v)
 
 
+ARG_WIDTHS = (0, 1, 2, 7, 64, 255, 1024, 4096, 32767, 40000, 70001)
+
+
+def _window_argtype_point(cfg):
+    """the width given as numpy integer types (what len()/shape arithmetic with numpy values produces),
+    and the window object after copy.copy / deepcopy / pickle round trip: same samples as the
+    constructed object called with a Python int"""
+    import copy
+    import pickle
+
+    viol = []
+    evals = 0
+    win = _make_window(cfg)
+    routes = {"constructed": win}
+    for name, fn in (("copy", copy.copy), ("deepcopy", copy.deepcopy),
+                     ("pickle", lambda o: pickle.loads(pickle.dumps(o)))):
+        r = computers.call(fn, win)
+        if r[0] != "ok":
+            viol.append(core.violation(dict(window=cfg["cls"], what="window_transport", aspect="exception",
+                                            route=name, exc=r[1]), "%s raised %s: %s" % (name, r[1], r[2]),
+                                       dict(kind="argtype", cfg=cfg)))
+            continue
+        routes[name] = r[1]
+    for width in ARG_WIDTHS:
+        ref_r = computers.call(_make_window(cfg).get_impulse_response, int(width))
+        if ref_r[0] != "ok":
+            continue
+        for route, obj in routes.items():
+            for tname, typ in (("int", int), ("int16", np.int16), ("int32", np.int32), ("int64", np.int64),
+                               ("intp", np.intp)):
+                if route != "constructed" and tname != "int":
+                    continue
+                if tname == "int16" and width > 32767:
+                    continue
+                if route == "constructed" and tname == "int":
+                    continue
+                evals += 1
+                r = computers.call(obj.get_impulse_response, typ(width))
+                ok = r[0] == "ok" and np.shape(r[1]) == np.shape(ref_r[1]) and np.allclose(
+                    r[1], ref_r[1], rtol=1e-13, atol=1e-300, equal_nan=True)
+                if not ok:
+                    viol.append(core.violation(
+                        dict(window=cfg["cls"], what="window_argument", arg=tname, route=route),
+                        "%r: get_impulse_response(%s(%d)) on the %s object gave %s, with a Python int on a "
+                        "fresh object %s" % (cfg, tname, width, route,
+                                             ("max|diff| %.3g" % float(np.max(np.abs(np.asarray(r[1]) - ref_r[1])))
+                                              if r[0] == "ok" and np.shape(r[1]) == np.shape(ref_r[1]) and width
+                                              else str(r[1:])[:120]), "shape %r" % (np.shape(ref_r[1]),)),
+                        dict(kind="argtype", cfg=cfg)))
+                    break
+    return core.result(viol[:6], evals=evals, nontrivial_count=evals, obs=[cfg["cls"], len(viol) == 0],
+                       sample=dict(cfg=cfg, widths=list(ARG_WIDTHS)))
+
+
 # ---------------------------------------------------------------- circshift_fourier
 
 CS_DTYPES = ("complex128", "float64", "complex64")
@@ -533,6 +587,14 @@ def subchecks(tier, seed):
             axes=dict(segment_len=[1, len(cs_none)], start_idx=[0, 8], dtype=CS_DTYPES,
                       copy=[True, False]),
             replay=lambda c: _cs_replay(c, seed)),
+        core.SubCheck(
+            "window_argtypes", _window_cfgs(tier), _window_argtype_point,
+            "every window configuration x widths {0..70001} given as numpy int16/int32/int64/intp, and the "
+            "window object after copy.copy / deepcopy / pickle round trip: same samples (1e-13) as a fresh "
+            "object called with a Python int",
+            axes=dict(widths=list(ARG_WIDTHS), arg=["int16", "int32", "int64", "intp"],
+                      route=["copy", "deepcopy", "pickle"]),
+            replay=lambda c: _window_argtype_point(c["cfg"])),
         core.SubCheck(
             "gauss_quant", gpts, lambda p: _gq_point(p, npts),
             "p over the sorted grid {q} u {fl(1-q) < 1} (1-p is exact there), q geometric 1e-20..0.5 (%d values): |z - "
